@@ -638,13 +638,13 @@ theorem planState_marked (diff : Differ) (a b : Vsys) (r : Rule) (x : String)
   have hx' : x ∈ sortStrings r.src ∨ x ∈ sortStrings r.dst := by
     simpa [mem_sortStrings] using hx
   have hg0 := initSt_bGrp_names (sortVsys a) (sortVsys b)
-    (uniqNames ((sortVsys a).groups.map (·.name)) ((sortVsys b).groups.map (·.name))) x (by
+    (groupNamesFor (sortVsys a) (sortVsys b)) x (by
       intro g hg'
       simp only [sortVsys, List.mem_map] at hg'
       obtain ⟨g0, hg0, rfl⟩ := hg'
       exact hg g0 hg0)
   have hb0 : ((initSt (sortVsys a) (sortVsys b)
-      (uniqNames ((sortVsys a).groups.map (·.name)) ((sortVsys b).groups.map (·.name)))).bAddrIdx x).isSome := by
+      (groupNamesFor (sortVsys a) (sortVsys b))).bAddrIdx x).isSome := by
     unfold St.bAddrIdx
     apply lastIdx_isSome_of_mem
     obtain ⟨o, ho, hn⟩ := hb
